@@ -28,7 +28,7 @@ Rule R7 (`format!(..)` => `String::new()`, `println!(..);` dropped) and R4 are a
 The result carries a line map so that each Verus diagnostic can be reported against /repo file:line.
 """
 import os
-import re
+import re, hashlib
 from . import extract
 from .extract import LostAnchor
 
@@ -194,23 +194,30 @@ def expand_fn(src, item_path, subs, log, tline):
     # sub rules (textual, logged) come next so that anchors see the rewritten text
     for (ln, d, payload) in subs:
         if d.startswith('sub '):
-            m = re.match(r'sub\s+(R\d+)(\?)?\s+/(.*)/\s*=>\s?(.*)$', d)
+            m = re.match(r'sub\s+(R\d+)(\?)?(?:\s+@([0-9a-f]{8}))?\s+/(.*)/\s*=>\s?(.*)$', d)
             if not m or m.group(1) not in RULES:
                 raise TemplateError('bad sub directive at template line %d: %r' % (ln, d))
-            rx = re.compile(m.group(3), re.S)
-            rep = m.group(4)
+            rx = re.compile(m.group(4), re.S)
+            rep = m.group(5)
             if payload:
                 rep = '\n'.join(payload)
+            if m.group(3):
+                # pinned rewrite: the text a wildcard pattern swallows is replaced by a model, so it must be EXACTLY the text the model was
+                # written for — its digest is recorded in the template; any edit inside it loses the anchor (undecided), never passes silently
+                hits = [mm.group(0) for mm in rx.finditer(text)]
+                dig = hashlib.sha1('\x00'.join(hits).encode('utf-8')).hexdigest()[:8]
+                if hits and dig != m.group(3):
+                    raise LostAnchor('sub %s /%s/ in %s: the rewritten text changed (digest %s, template pins %s)' % (m.group(1), m.group(4)[:60], name, dig, m.group(3)))
             new, cnt = rx.subn(rep, text)
             if cnt == 0 and not m.group(2):
-                raise LostAnchor('sub %s /%s/ in %s: no match' % (m.group(1), m.group(3), name))
+                raise LostAnchor('sub %s /%s/ in %s: no match' % (m.group(1), m.group(4), name))
             if new.count('\n') != text.count('\n'):
                 # keep the line count stable so the line map stays exact: pad or refuse
                 diff = text.count('\n') - new.count('\n')
                 if diff < 0:
                     raise TemplateError('sub at template line %d adds lines; use before/after payloads' % ln)
             text = new
-            log.append({'rule': m.group(1), 'item': name, 'count': cnt, 'what': 'sub /%s/ => %s' % (m.group(3), rep[:80])})
+            log.append({'rule': m.group(1), 'item': name, 'count': cnt, 'what': 'sub /%s/ => %s' % (m.group(4), rep[:80])})
         elif d.startswith('let '):
             m = re.match(r'let\s+(\w+)\s*:\s*(.*)$', d)
             rx = re.compile(r'\blet\s+(mut\s+)?' + re.escape(m.group(1)) + r'\s*=')
@@ -345,18 +352,25 @@ def expand_item(src, item_path, subs, log, tline):
             pre += '#[derive(%s)] ' % d[7:].strip()
             log.append({'rule': 'R4', 'item': name, 'what': 're-attached derive(%s)' % d[7:].strip()})
         elif d.startswith('sub '):
-            m = re.match(r'sub\s+(R\d+)(\?)?\s+/(.*)/\s*=>\s?(.*)$', d)
+            m = re.match(r'sub\s+(R\d+)(\?)?(?:\s+@([0-9a-f]{8}))?\s+/(.*)/\s*=>\s?(.*)$', d)
             if not m or m.group(1) not in RULES:
                 raise TemplateError('bad sub directive at template line %d: %r' % (ln, d))
-            rx = re.compile(m.group(3), re.S)
-            rep = m.group(4)
+            rx = re.compile(m.group(4), re.S)
+            rep = m.group(5)
             if payload:
                 rep = '\n'.join(payload)
+            if m.group(3):
+                # pinned rewrite: the text a wildcard pattern swallows is replaced by a model, so it must be EXACTLY the text the model was
+                # written for — its digest is recorded in the template; any edit inside it loses the anchor (undecided), never passes silently
+                hits = [mm.group(0) for mm in rx.finditer(text)]
+                dig = hashlib.sha1('\x00'.join(hits).encode('utf-8')).hexdigest()[:8]
+                if hits and dig != m.group(3):
+                    raise LostAnchor('sub %s /%s/ in %s: the rewritten text changed (digest %s, template pins %s)' % (m.group(1), m.group(4)[:60], name, dig, m.group(3)))
             new, cnt = rx.subn(rep, text)
             if cnt == 0 and not m.group(2):
-                raise LostAnchor('sub %s /%s/ in %s: no match' % (m.group(1), m.group(3), name))
+                raise LostAnchor('sub %s /%s/ in %s: no match' % (m.group(1), m.group(4), name))
             text = new
-            log.append({'rule': m.group(1), 'item': name, 'count': cnt, 'what': 'sub /%s/ => %s' % (m.group(3), rep[:80])})
+            log.append({'rule': m.group(1), 'item': name, 'count': cnt, 'what': 'sub /%s/ => %s' % (m.group(4), rep[:80])})
         elif d == 'pubfields':
             # R4: every named field becomes `pub` (Verus treats a struct with private fields as opaque in contracts)
             text, cnt = re.subn(r'(\n\s+)(?!pub\b)(\w+\s*:\s)', r'\1pub \2', text)
